@@ -23,7 +23,8 @@ def run(repo: Repo, chk: Check) -> None:
         "cases domain given / empty / None) and call resolve(name, 'SRV', search=True); O2 the selection normalises to 'priority ascending, "
         "then weight descending, take first' (sort specification, or for a hand written scan the truth table of its comparison over all 9 sign "
         "vectors); O3 target = str(record.target) with trailing dots stripped, port/weight/priority copied to the same-named fields; "
-        "O4 the API functions look up only when no server is given and use the record's target; sync and async lookups are twins."
+        "O4 the API functions look up only when no server is given and use the record's target; sync and async lookups are twins (same "
+        "decorators, same path signatures) and neither is memoised."
     )
     chk.scope_not = "dnspython's search-list semantics; empty answers."
     chk.trusted = ["dnspython resolve()/Answer iteration", "Python sorted() is stable and ascending"]
